@@ -63,6 +63,8 @@ if __name__ == '__main__':
             t = dict(table[p])
             if t['engine'] in ('fieldmon', 'vssmon', 'canmon') and 'ILP32' not in t['text']:
                 t['text'] = t['text'].rstrip() + SUFFIX
+            if t['engine'] in ('fieldmon', 'vssmon', 'canmon') and 'libFuzzer' not in t['technique']:
+                t['technique'] = t['technique'] + '; the same oracle under a coverage-guided workload (clang libFuzzer) and in further build configurations (MSan, NDEBUG, unsigned char, ILP32, ...)'
             checks.append(dict(property_id=p, quick_cmd='./check %s --tier quick' % p, thorough_cmd='./check %s --tier thorough' % p,
                                evidence_file='evidence/%s.json' % p, replay_cmd_template='./check %s --replay {path}' % p,
                                engine=t['engine'], level_claimed=dict(category=t.get('category', 'exploration'), text=t['text'],
